@@ -112,8 +112,8 @@ func selftest(repo, verif, only string) int {
 	// ---- the watchdog itself (hidden suite wdcheck)
 	if want("watchdog") {
 		start := time.Now()
-		row := stRow{name: "watchdog", what: "hidden suite wdcheck: 8 normal calls, 8 panics -> PANIC, 8 endless loops stopped by poisoning -> HANG, 2 unstoppable loops -> worker abandoned + replaced, all other items still processed",
-			expect: "8/8/8/2", got: "?"}
+		row := stRow{name: "watchdog", what: "hidden suite wdcheck: 7 normal calls, 1 over-budget call that returns normally -> HANG (result discarded), 8 panics -> PANIC, 8 endless loops stopped by poisoning -> HANG, 2 unstoppable loops -> worker abandoned + replaced, all other items still processed",
+			expect: "7/1/8/8/2", got: "?"}
 		res, err := execHarness("wdcheck", repo, "quick", 1, false)
 		if err != nil || !res.done {
 			row.note = fmt.Sprintf("did not complete: %v", err)
@@ -137,8 +137,9 @@ func selftest(repo, verif, only string) int {
 				}
 			}
 			p, h, a := count("wdcheck", "panic"), count("wdcheck", "poison-hang"), count("wdcheck.watchdog", "HANG(abandoned)")
-			row.got = fmt.Sprintf("%d/%d/%d/%d", cases-p-h-6, p, h, a) // 6 = kind-3 items that make no call; abandoned items are not counted in cases
-			row.ok = p == 8 && h == 8 && a == 2 && cases == 30 && count("wdcheck", "returned-from-endless-loop") == 0
+			o := count("wdcheck", "over-budget-return")
+			row.got = fmt.Sprintf("%d/%d/%d/%d/%d", cases-p-h-o-6, o, p, h, a) // 6 = kind-3 items that make no call; the 2 abandoned items never reach their case counter
+			row.ok = o == 1 && p == 8 && h == 8 && a == 2 && cases == 30 && count("wdcheck", "returned-from-endless-loop") == 0
 			row.note = fmt.Sprintf("items completed by non-abandoned workers: %d of 32", cases)
 		}
 		row.wall = fmt.Sprintf("%.0fs", time.Since(start).Seconds())
